@@ -116,16 +116,6 @@ def parseTokSpec (s : String) : Option (Key × Val × List (Key × Option Nat)) 
   | [k, v, a] => do some (← parseKey k, ← parseVal v, ← parseAttrs a)
   | _ => none
 
-def buildParts (isReq : Bool) : List (Key × Val × List (Key × Option Nat)) → R (List Part)
-  | [] => .ok []
-  | (k, v, a) :: rest =>
-    match getToken isReq k v a with
-    | .error e => .error e
-    | .ok p =>
-      match buildParts isReq rest with
-      | .error e => .error e
-      | .ok ps => .ok (p :: ps)
-
 def lrrpOp (op : String) (args : List String) : Option String :=
   match op, args with
   | "lrrp.parse", [h] => do
@@ -142,7 +132,7 @@ def lrrpOp (op : String) (args : List String) : Option String :=
       | ['-'] => some none
       | 'T' :: t => (hexToBytes (if t.isEmpty then "-" else String.ofList t)).map some
       | _ => none)
-    match buildParts (req == "1") specs with
+    match getTokens (req == "1") specs with
     | .error e => some (errStr e)
     | .ok ps =>
       match tbl with
